@@ -119,3 +119,14 @@ impl super::page_walker::PageSet for PageSet {
 /// A frozen, shared page set. This is cheap to clone.
 #[derive(Clone)]
 pub struct FrozenSharedPageSet(Arc<HashMap<PageId, (Page, PageOrigin)>>);
+
+#[cfg(nomt_verif)]
+impl PageSet {
+    /// The page ids of the working map with their origins.
+    pub(crate) fn verif_entries(&self) -> Vec<(PageId, PageOrigin)> {
+        self.map
+            .iter()
+            .map(|(id, (_, origin))| (id.clone(), origin.clone()))
+            .collect()
+    }
+}
